@@ -24,10 +24,12 @@ def execute(init_feats, cfg, steps, dbfn):
     kw = G.real_kwargs(cfg)
     if cfg.get("importer") == "gtf":
         kw["dialect"] = dict(GTF_DIALECT)
+    objs = [G.real_feature(f) for f in init_feats]
     try:
         with dbio.quiet():
-            db = gffutils.create_db([G.real_feature(f) for f in init_feats], dbfn, force=True, **kw)
-        out.append((None, dbio.proj_db(db.conn)))
+            db = gffutils.create_db(objs, dbfn, force=True, **kw)
+        first = dbio.proj_db(db.conn)
+        out.append((None, first))
     except Exception as e:  # noqa
         return [(type(e).__name__, None)]
     for s in steps:
@@ -39,6 +41,21 @@ def execute(init_feats, cfg, steps, dbfn):
             out.append((type(e).__name__, None))
             break
     return out
+
+
+def run_reuse(args):
+    """the caller's Feature objects are the caller's: import them with 'merge', then import THE SAME OBJECTS into another database with 'create_unique';
+    the second database must be what 'create_unique' makes of the features as the caller wrote them"""
+    import gffutils
+    h = args
+    objs = [G.real_feature(f) for f in h["init"]["feats"]]
+    try:
+        with dbio.quiet():
+            gffutils.create_db(objs, ":memory:", **G.real_kwargs(dict(h["init"]["cfg"], strategy="merge")))
+            db = gffutils.create_db(objs, ":memory:", **G.real_kwargs(h["init"]["cfg"]))
+        return [(None, dbio.proj_db(db.conn))]
+    except Exception as e:  # noqa
+        return [(type(e).__name__, None)]
 
 
 def to_hist(c):
@@ -93,7 +110,7 @@ def judge_all(ctx, hists, finals, observed, label):
             ctx.known_finding(explained[i], KNOWN_TEXT.get(explained[i], explained[i]))
         else:
             h = hists[i]
-            ctx.violation({"init": h["init"], "steps": h["steps"],
+            ctx.violation({"init": h["init"], "steps": h["steps"], "reuse_after_merge": bool(h.get("reuse_after_merge")),
                            "lines": [G.gff3_line(f) for f in h["init"]["feats"]] + ["# update:"] * bool(h["steps"]) + [G.gff3_line(f) for s in h["steps"] for f in s["feats"]]},
                           m, {"strategy": h["init"]["cfg"]["strategy"], "force_merge_fields": h["init"]["cfg"]["fmf"]})
 
@@ -106,7 +123,7 @@ def random_hists(rng, n):
         cfg = dict(G.DEFAULT_CFG, strategy=strat, fmf=fmf)
         parents = ["p%d" % i for i in range(3)]
         feats = [G.feat("gene", 1, 100, [("ID", [p])]) for p in parents]
-        keys = ["K", "L"]
+        keys = ["K", "L"] if rng.random() < 0.7 else ["K", "K ", "k"]      # keys that differ only by a trailing blank or in case are different keys
         arr = []
         for _ in range(rng.randint(2, 9)):
             attrs = [("ID", [rng.choice(keys)]), ("n", [str(rng.randint(1, 4))])]
@@ -171,6 +188,16 @@ def run(ctx):
     c0 = cases[0]
     ctx.sample({"lines": [G.gff3_line(f) for f in c0["parents"] + c0["arrs"]], "strategy": c0["cfg"]["strategy"], "force_merge_fields": c0["cfg"]["fmf"],
                 "split": c0["split"], "expected_keys": [dec(f["id"]) for f in c0["snap"]["db"]["feats"]], "expected_status": c0["snap"]["st"]})
+    # D1b: objects re-used after a 'merge' import
+    reuse = []
+    for h in hists:
+        if h["init"]["cfg"]["strategy"] == "merge" and not h["steps"] and not h["init"].get("gtf") and len(reuse) < (3000 if thorough else 500):
+            reuse.append({"init": dict(h["init"], cfg=dict(h["init"]["cfg"], strategy="create_unique")), "steps": [], "rel": False, "reuse_after_merge": True})
+    if reuse:
+        exp2 = G.model(ctx, reuse, label="the same objects imported again with create_unique")
+        obs2 = core.pmap(run_reuse, reuse)
+        judge_all(ctx, reuse, [e["traj"][0] for e in exp2], obs2, "D1b")
+        ctx.traces += len(reuse)
     # D2 (file databases here: update opens a second connection on them)
     rh = random_hists(ctx.rng, 4000 if thorough else 500)
     exp = G.model(ctx, rh, label="random collision histories")
@@ -190,10 +217,10 @@ def run(ctx):
 def replay(ctx, rec):
     c = rec["case"]
     if "init" not in c:
-        return True
+        raise core.CannotReplay("no executable case in this replay file")
     h = {"init": c["init"], "steps": c["steps"], "rel": False}
     e = G.model(ctx, [h], workers=1)[0]
-    o = execute(h["init"]["feats"], h["init"]["cfg"], h["steps"], ":memory:")
+    o = run_reuse(h) if c.get("reuse_after_merge") else execute(h["init"]["feats"], h["init"]["cfg"], h["steps"], ":memory:")
     m = mismatch(e["traj"][len(o) - 1], o)
     if not m:
         return False
